@@ -246,7 +246,35 @@ def _structs():
         "slots_only": (lambda a, b, c: O.slots_only(a, b, c), lambda a, b, c: [("a", a), ("b", c)]),
         "vars_only": (lambda a, b, c: O.vars_only(a, b, c), lambda a, b, c: [("a", a), ("b", b)]),
         "plain_init": (lambda a, b, c: M.Plain(a, "q"), lambda a, b, c: [("a", a), ("b", "q")]),
+        # subscript access without iteration does not make a structured object a sequence
+        "dataclass_with_getitem": (lambda a, b, c: O.Indexable(a, b), lambda a, b, c: [("x", a), ("y", b)]),
+        "slots_with_getitem": (lambda a, b, c: O.slots_indexable(a, b), lambda a, b, c: [("a", a), ("b", b)]),
     }
+
+
+def make_renamed_namedtuple(timeout):
+    """A named tuple with an underscore-renamed field: whatever fields are yielded, each is paired with its own value and
+    itervalues agrees with iteritems (whether the renamed field counts as public is left open)."""
+
+    def body(a: int, b: int, c: int):
+        S = _ser()
+        x = O.Row(a, b, c)
+        ok, it = attempt(lambda: list(S.iteritems(x)))
+        ok2, vs = attempt(lambda: list(S.itervalues(x)))
+        reached()
+        if not (ok and ok2):
+            return ("iteration_raised", "namedtuple_renamed_field", _d(x, it, vs))
+        names = [k for k, _ in it]
+        if not {"id", "name"} <= set(names) or any(n not in x._fields for n in names):
+            return ("items_wrong", "namedtuple_renamed_field", _d(x, it))
+        for k, v in it:
+            if v is not getattr(x, k):
+                return ("field_paired_with_another_fields_value", "namedtuple_renamed_field", _d(x, it))
+        if not _same_list(vs, [v for _, v in it]):
+            return ("values_wrong", "namedtuple_renamed_field", _d(x, it, vs))
+        return None
+
+    return Cond("struct/namedtuple_renamed_field", [("a", int), ("b", int), ("c", int)], body, mode="E1", timeout=timeout)
 
 
 def make_struct(name, mk, exp, timeout):
@@ -301,4 +329,5 @@ def conditions(tier, seed):
     out.append(make_strseq(L, to))
     for name, (mk, exp) in _structs().items():
         out.append(make_struct(name, mk, exp, to))
+    out.append(make_renamed_namedtuple(to))
     return out
